@@ -161,6 +161,26 @@ func keysOf(m map[string]json.RawMessage) []string {
 	return out
 }
 
+// a sub-stream with members given by absolute paths beside relative ones: every member as the command sees it
+// resolves, from the task's directory, to the member's file
+func joinAbsoluteMembers(ctx *Ctx) {
+	dir := newDir()
+	defer os.RemoveAll(dir)
+	abs := filepath.Join(dir, "absdir", "m1.txt")
+	pre := map[string]string{"m0.txt": "member-0\n", "absdir/m1.txt": "member-1\n", "m2.txt": "member-2\n"}
+	d := &Desc{Name: "c18abs", Max: 2, Nodes: []Node{{Name: "src", Kind: "filesource", Paths: []string{"m0.txt", abs, "m2.txt"}},
+		{Name: "sts", Kind: "substream"},
+		{Name: "join", Kind: "proc", Cmd: "( cat {i:in|join: } > {o:out} )", Outs: map[string]string{"out": "joinedabs.out"}}},
+		Edges: []Edge{{From: "src.out", To: "sts.in"}, {From: "sts.substream", To: "join.in"}}}
+	rr := RunWorkflow(d, RunOpts{Dir: dir, Pre: pre, Timeout: 20e9})
+	ctx.Res.Eval("join with an absolute member path", true, "abs-member")
+	ctx.Res.Count("absolute-member")
+	got, _ := readFile(dir, "joinedabs.out")
+	if rr.Exit != 0 || got != "member-0\nmember-1\nmember-2\n" {
+		ctx.Res.Violate(Violation{What: fmt.Sprintf("joining the members [m0.txt %s m2.txt]: exit %d, output %q — a member did not resolve from the task's directory (%s)", abs, rr.Exit, got, firstLine(rr.Stderr)), Class: "c18.content", Witness: "abs-member"})
+	}
+}
+
 // a process with two joined in-ports, each fed by its own sub-stream: every placeholder carries its own members only
 func twoJoinedPorts(ctx *Ctx, na, nb int) {
 	d := &Desc{Name: "c18two", Max: 4}
@@ -244,6 +264,7 @@ func checkC18(ctx *Ctx) {
 		twoJoinedPorts(ctx, 3, 2)
 	}
 	twoJoinedPorts(ctx, 1, 4)
+	joinAbsoluteMembers(ctx)
 }
 
 func init() { checks["C18"] = checkC18 }
